@@ -33,6 +33,15 @@ MOTIFS = {
     'near-collinear3': (['O', 'C', 'S'], [(0, 0, 0), (1.2, 0.025, 0), (2.7, 0, 0)]),
     # first pattern atom is a two-letter element whose symbol contains a one-letter element
     'ClCH': (['Cl', 'C', 'H'], [(0, 0, 0), (1.7, 0, 0), (2.2, 0.95, 0)]),
+    # long axis exactly along x; used with a copy rotated by exactly 180 degrees about that axis
+    'xaxis4': (['S', 'P', 'N', 'O'], [(0, 0, 0), (3.0, 0, 0), (1.0, 0.5, 0.5), (2.0, -0.4, 0.7)]),
+    # point set with a two-fold pseudo-symmetry (about the C-F axis) that swaps the two H and is broken only by the ELEMENTS of N and O
+    'pseudo6': (['C', 'H', 'H', 'F', 'N', 'O'], [(0, 0, 0), (1.1, 0, 0), (-1.1, 0, 0), (0, 1.3, 0), (0, -0.5, 1.2), (0, -0.5, -1.2)]),
+    # first element occurs at two atoms related only by a mirror plane (O, N, F lie in the bisector plane of C-C; no proper symmetry)
+    'mirror-pair5': (['C', 'C', 'O', 'N', 'F'], [(0.75, 0, 0), (-0.75, 0, 0), (0, 1.2, 0.3), (0, -0.4, 1.3), (0, -1.0, -0.8)]),
+    # three H interchangeable with respect to the C listed before them; the later O and H tell them apart
+    'methanol6': (['C', 'H', 'H', 'H', 'O', 'H'], [(0, 0, 0), (-0.36, 1.03, 0), (-0.36, -0.51, 0.89), (-0.36, -0.51, -0.89), (1.43, 0, 0), (1.75, -0.45, 0.78)]),
+    'CFH': (['C', 'F', 'H'], [(0, 0, 0), (1.35, 0, 0), (-0.4, 0.9, 0.45)]),
     'near-collinear4': (['O', 'C', 'S', 'N'], [(0, 0, 0), (1.2, 0.025, 0), (2.7, 0, 0), (3.9, 0.0, 0.01)]),
 }
 
@@ -47,6 +56,9 @@ CELLS = {
 }
 _RM = SR.from_euler('xyz', [0.4, -0.9, 1.3]).as_matrix()
 CELLS['tr'] = (np.array(CELLS['t1']) @ _RM.T).tolist()      # t1 in an arbitrary orientation
+CELLS['big'] = [[60., 0, 0], [0, 61., 0], [0, 0, 62.]]
+CELLS['bigt'] = [[60., 0, 0], [-14., 58., 0], [9., -11., 55.]]
+CELLS['orot'] = [[6.0, 8.0, 0.0], [-8.8, 6.6, 0.0], [0.0, 0.0, 12.0]]     # mutually perpendicular vectors (10, 11, 12) NOT aligned with x, y, z
 
 POSES = {
     'id': [0, 0, 0], 'p1': [0.3, 1.1, -0.7], 'p2': [1.0, -0.4, 0.2], 'p3': [-2.1, 0.5, 2.6], 'p4': [0.05, 3.0, -1.2],
